@@ -10,6 +10,7 @@ From NC Require Import Model.JunosParse Model.JunosSax Proofs.JunosParseProofs P
 From NC Require Import Model.Base Model.Lit Model.SaxFilter Spec.Projection Proofs.SaxProofs.
 From NC Require Import Spec.ProjectionW Proofs.SaxWrapperProofs.
 From NC Require Import Model.Utf8 Model.Framing11 Spec.RefFraming Model.JunosParse11 Proofs.JunosParse11Proofs.
+From NC Require Import Model.JunosProcess Proofs.JunosProcessProofs.
 
 (* Whatever the environment and the handler state: two event streams that are re-segmentations of each other
    (same canonical form: adjacent character events merged, empty ones dropped) leave the same bytes in the buffer
@@ -468,4 +469,56 @@ Proof. vm_compute. reflexivity. Qed.
 Example C18_ex_base11_as_base10 :
   find_sub Framing10.delim10 (L "ab" ++ Framing10.delim10) = Some (L "ab", []) /\ blstrip (L "ab") = L "ab" /\
   feed unit nat toy_step toy_rooted tt O (L "ab") = FOk 2%nat (L "ab").
+Proof. vm_compute. repeat split; reflexivity. Qed.
+
+(* ---------------- several sessions in one process (Model/JunosProcess.v) ---------------- *)
+(* "independent of other replies adjacent in the stream", process-wide: an application has several Junos sessions (very
+   often with the same filter), each with its own worker; their reads interleave in any order.  A process state is the
+   list of the sessions' driver states, a schedule the list of reads (session index, octets) in the order they are
+   taken.  Under EVERY schedule, session k ends exactly where it ends alone over its own reads (mixed process: sessions
+   in end-of-message and in chunked framing, the instance the correspondence runs) ... *)
+Theorem C18_sessions_alone : forall ss sched k,
+  nth_error (sx_prun ss sched) k = option_map (fun s => fold_left sparse (reads_of k sched) s) (nth_error ss k).
+Proof. exact c18_sessions_alone. Qed.
+Print Assumptions C18_sessions_alone.
+
+(* ... hence the process ends where it ends when the sessions run one after the other ... *)
+Theorem C18_sessions_one_by_one : forall ss sched, sx_prun ss sched = sx_prun ss (one_by_one (length ss) sched).
+Proof. exact c18_sessions_one_by_one. Qed.
+Print Assumptions C18_sessions_one_by_one.
+
+(* ... and, for the base:1.0 driver with any machine that meets the conditions of the segmentation theorem and any
+   dispatch function, two schedules that give every session the same octets (in however many reads, interleaved however)
+   leave the same process state: the same messages dispatched on every session, the same parser states. *)
+Theorem C18_sessions_octets :
+  forall (W X : Type) (xnew : W -> X) (xstep : W -> X -> N -> xres X) (xrooted : X -> bool)
+         (dispatch : W -> bool -> bytes -> dres W),
+    (forall w x c x' o, xstep w x c = XOk x' o -> xrooted x = true -> xrooted x' = true) ->
+    (forall w, xrooted (xnew w) = false) ->
+    forall ss s1 s2,
+      (forall k, (k < length ss)%nat ->
+         concat (reads_of k s1) = concat (reads_of k s2) /\ (reads_of k s1 = [] <-> reads_of k s2 = [])) ->
+      prun _ (JunosParse.parse W X xnew xstep xrooted dispatch) ss s1 =
+      prun _ (JunosParse.parse W X xnew xstep xrooted dispatch) ss s2.
+Proof. exact c18_sessions_octets. Qed.
+Print Assumptions C18_sessions_octets.
+
+(* non-vacuity, the toy machine of above: two sessions read the toy stream, one cut inside both delimiters, the other
+   cut elsewhere, their reads dealt out in turn (and one session two reads ahead): both end as the single session of
+   C18_ex_cut_run does; `deal` is the schedule the harness builds from an order of turns. *)
+Definition toy_prun := prun _ (JunosParse.parse unit nat (fun _ => O) toy_step toy_rooted (fun w _ _ => DOk w true)).
+Definition toy_sched : list (nat * bytes) :=
+  deal [0; 1; 0; 1; 0; 1; 0; 1; 0; 0]%nat [segments toy_stream [3; 2; 7; 1; 3]%nat; segments toy_stream [1; 9; 4]%nat].
+
+Example C18_ex_sessions_schedule :
+  toy_sched = [(0, L "ab]"); (1, L "a"); (0, L "]>"); (1, L "b]]>]]>  "); (0, L "]]>  !c"); (1, L "!cd]");
+               (0, L "d"); (1, L "]>]]>ef]"); (0, L "]]>"); (0, L "]]>ef]")]%nat /\
+  reads_of 1 toy_sched = segments toy_stream [1; 9; 4]%nat.
+Proof. vm_compute. split; reflexivity. Qed.
+
+Example C18_ex_sessions_run :
+  toy_prun [toy_init; toy_init] toy_sched = [toy_run toy_init [toy_stream]; toy_run toy_init [toy_stream]] /\
+  toy_prun [toy_init; toy_init] (deal [1; 1; 0; 0; 0; 1; 0; 1; 0; 0]%nat
+       [segments toy_stream [3; 2; 7; 1; 3]%nat; segments toy_stream [1; 9; 4]%nat]) = toy_prun [toy_init; toy_init] toy_sched /\
+  toy_prun [toy_init; toy_init] (one_by_one 2 toy_sched) = toy_prun [toy_init; toy_init] toy_sched.
 Proof. vm_compute. repeat split; reflexivity. Qed.
